@@ -221,6 +221,16 @@ pub fn gen_c07(rng: &mut Rng, tier: Tier) -> NetProgram {
             prog.modules[mi].beats = beats;
         }
     }
+    // the sending module may go down while its channel still has a backlog: the backlog is accounted for all the same
+    if rng.chance(1, 10) {
+        let v = rng.usize(prog.modules.len());
+        if let Some(last) = prog.modules[v].beats.last().map(|b| b.at_ns) {
+            let at = rng.below(last + 1);
+            let restart = if rng.chance(1, 2) { -1 } else { rng.below(last + 1000) as i64 };
+            prog.modules[v].beats.push(Beat { at_ns: at, acts: vec![Act::Shutdown { restart, at: false }] });
+            prog.modules[v].beats.sort_by_key(|b| b.at_ns);
+        }
+    }
     prog.order = (0..prog.modules.len() as u32).collect();
     cq(rng, &mut prog, slowest_gap);
     if prog.t_ns == 0 && slowest_gap > SEC {
@@ -601,6 +611,10 @@ pub fn gen_c09(rng: &mut Rng, tier: Tier) -> NetProgram {
     }
     for m in &mut prog.modules {
         m.tasks = crate::asy::gen_tasks_c09(rng);
+        // user reset code may itself fail: the old incarnation must be gone all the same
+        if rng.chance(1, 10) {
+            m.reset_panics = true;
+        }
         // start-up code that sends: it runs again at every restart
         if rng.chance(1, 3) {
             m.start_acts = (0..1 + rng.small(2)).map(|_| Act::Send { gate: rng.below(5) as u32, delay_ns: if rng.chance(1, 4) { 250_000_000 } else { 0 }, body: 1 }).collect();
@@ -809,6 +823,15 @@ pub fn gen_c20(rng: &mut Rng, tier: Tier) -> NetProgram {
     if rng.chance(1, 4) {
         let v = rng.usize(nmod);
         prog.modules[v].end_acts = vec![if rng.chance(1, 2) { Act::SelfMsg { delay_ns: rng.below(4) * SEC / 4 } } else { Act::Send { gate: rng.below(4) as u32, delay_ns: rng.below(2) * SEC / 4, body: 1 } }];
+    }
+    // user code that looks at the global view of the simulation
+    if rng.chance(1, 3) {
+        let v = rng.usize(nmod);
+        if let Some(b) = prog.modules[v].beats.first_mut() {
+            b.acts.insert(0, Act::QueryTree);
+        } else {
+            prog.modules[v].beats.push(Beat { at_ns: 0, acts: vec![Act::QueryTree] });
+        }
     }
     // stopping point
     match rng.below(8) {
